@@ -105,6 +105,13 @@ def oracle(case, trace, ix, res, prefix='C04', focus=None):
                          context(ix))
                 continue
             crit_objs = {e['obj'] for e in info.get('crit', ())}
+            # a critical job that answers its cancellation by raising has raised too: the
+            # statement allows "the very exception object raised by one of its critical jobs"
+            late = {ix.exit(m['id'])['obj'] for m in sp['members'] if m['critical']
+                    and ix.exit(m['id']) is not None
+                    and ix.exit(m['id'])['how'] == 'cancelled-raise'}
+            if crit_objs and ev['obj'] in late:
+                crit_objs = crit_objs | late
             if ev['obj'] in crit_objs:
                 kind = 'critical'
             elif ev.get('etype') == 'TimeoutError':
